@@ -140,8 +140,38 @@ def scaling(ctx, n, b, alpha=2.5, split=None, kind='f'):
               S.sym_and(*[S.sym_and(comb[i] >= 0, amp[i] >= 0, ctx.eq(comb[i] ** kk, 2 * amp[i] ** kk, 1e3 ** kk, rtol=1e-7))
                           for i in range(n)]))
 
+def int_dtype(ctx, n, b, split=None):
+    """An integer-dtype record is the same series as its float copy: every C13 quantity computed from the integer array
+    equals the one computed from x.astype(float).  Together with the float-kind scenarios this carries every clause over
+    to integer records without non-linear integer queries: on a correct tree all comparisons are between identical terms;
+    a truncating store or an integer division anywhere in the integer path makes the terms differ and goes to z3."""
+    im = ctx.lib.im
+    pc = ctx.lib.fns.peaks_and_crossings
+    x = ctx.iarr('x', n, -10, 10)
+    xf = x.astype(float)
+    n_cyc = ctx.real('n_cyc', 0.5, 30.0)
+    a_ref = ctx.real('a_ref', 0.1, 10.0)
+    ctx.assume(S.sym_or(*[x[j] != x[0] for j in range(1, n)]))
+    ctx.assume(S.sym_and(*[x[j] != 0 for j in range(n)]))
 
-SCENARIOS = {'peak_only': peak_only, 'power_law': power_law, 'scaling': scaling}
+    def same(name, fi, ff):
+        fi = [v[0] if hasattr(v, '__len__') else v for v in fi]
+        ff = [v[0] if hasattr(v, '__len__') else v for v in ff]
+        ctx.observe(name, fi)
+        ctx.claim('integer_record_gives_the_float_record_values:' + name,
+                  S.sym_and(len(fi) == len(ff), *[ctx.eq(fi[i], ff[i], 1e3, rtol=1e-7) for i in range(min(len(fi), len(ff)))]))
+    same('delta_series', pc.determine_peaks_only_delta_series(x), pc.determine_peaks_only_delta_series(xf))
+    same('pseudo_cyclic_series', pc.determine_pseudo_cyclic_peak_only_series(x), pc.determine_pseudo_cyclic_peak_only_series(xf))
+    same('cycles', im.calc_n_cyc_array_w_power_law(x, a_ref, b, cut_off=0.0), im.calc_n_cyc_array_w_power_law(xf, a_ref, b, cut_off=0.0))
+    same('amplitude', im.calc_cyc_amp_array_w_power_law(x, n_cyc, b), im.calc_cyc_amp_array_w_power_law(xf, n_cyc, b))
+    same('geometric_mean', im.calc_cyc_amp_gm_arrays_w_power_law(x, x, n_cyc, b), im.calc_cyc_amp_gm_arrays_w_power_law(xf, xf, n_cyc, b))
+    same('combined', im.calc_cyc_amp_combined_arrays_w_power_law(x, x, n_cyc, b),
+         im.calc_cyc_amp_combined_arrays_w_power_law(xf, xf, n_cyc, b))
+    same('combined_mixed', im.calc_cyc_amp_combined_arrays_w_power_law(x, xf, n_cyc, b),
+         im.calc_cyc_amp_combined_arrays_w_power_law(xf, xf, n_cyc, b))
+
+
+SCENARIOS = {'peak_only': peak_only, 'power_law': power_law, 'scaling': scaling, 'int_dtype': int_dtype}
 SELFTEST_PER_SCENARIO = 3
 
 
@@ -164,3 +194,6 @@ def obligations(tier, seed):
                 yield Ob('scaling', dict({'n': n, 'b': b}, **sp), query_ms=60000, timeout_s=1500)
         yield Ob('power_law', {'n': 3, 'b': b, 'cut_off': 0.01}, query_ms=60000, timeout_s=1500)
     yield Ob('power_law', {'n': 3, 'b': 1.0, 'arr': True}, query_ms=60000, timeout_s=1500)
+    for b in (1.0, 0.5, 2.0):
+        for n in ((2, 3, 4) if q else (2, 3, 4, 5)):
+            yield Ob('int_dtype', {'n': n, 'b': b}, query_ms=60000, timeout_s=900)
